@@ -15,7 +15,7 @@ META = {
     'level': 'other',
     'rule_text': 'rule instances: parameter threading at the two call sites of the helper (ellipsoid and projection), provenance of '
                  'every leaf of (psf, grid_conv), argument wiring of both callers, the psf / |grid_conv| formulas, p and q as term-wise '
-                 'derivatives of the forward series, the 9-entry sign table over sign(lon-cm) x sign(lat), result wiring of both callers',
+                 'derivatives of the forward series, the 9-entry sign table over sign(lon-cm) x sign(lat), result wiring of both callers; statelessness of psfandgridconv / geo2grid / grid2geo with memo-key analysis',
     'explanation': 'Static: call-site binding (R-THREAD), abstract evaluation of psfandgridconv to exact normal forms compared with '
                    'Karney-Krueger eq. 26-28, exact differentiation of the forward series, and enumeration of the finite set of '
                    'orderings that the sign rule depends on. Decides that the two quantities are computed from the ellipsoid and '
